@@ -92,6 +92,7 @@ fn main() {
             let (Some(p), Some(t)) = (positional.get(1), positional.get(2)) else { usage() };
             probe(p, t)
         }
+        Some("lifecycle-probe") => lifecycle_probe(),
         Some("replay") => {
             let Some(path) = positional.get(1) else { usage() };
             replay_file(path)
@@ -186,6 +187,49 @@ fn selftest_determinism(opts: &Opts, seeds: u64) -> i32 {
         eprintln!("harness error: simulator is not deterministic");
         2
     }
+}
+
+/// Debugging aid: does a regex compiled right after another one was dropped land on the same
+/// address (the precondition of address-keyed cache bugs), and does a long-lived worker thread
+/// then answer correctly?
+fn lifecycle_probe() -> i32 {
+    use std::sync::mpsc;
+    use std::sync::Arc;
+    let pats = [r"\w+(?=!)", r"\d+(?=!)", r"[ab]+(?=!)", r"[^a]+(?=!)"];
+    let text = "ab 12! a1-a b2!";
+    let (tx, rx) = mpsc::channel::<Arc<fancy_regex::Regex>>();
+    let (rtx, rrx) = mpsc::channel::<String>();
+    let worker = std::thread::spawn(move || {
+        for re in rx {
+            let r = guarded(|| re.find(text).map(|m| m.map(|m| (m.start(), m.end()))));
+            drop(re);
+            rtx.send(r.show()).unwrap();
+        }
+    });
+    let mut bad = 0;
+    let mut same_addr = 0;
+    let mut last_addr = 0usize;
+    for round in 0..40 {
+        let p = pats[round % pats.len()];
+        let re = Arc::new(compile(p).unwrap());
+        let addr = Arc::as_ptr(&re) as usize;
+        if addr == last_addr {
+            same_addr += 1;
+        }
+        last_addr = addr;
+        let expect = guarded(|| compile(p).unwrap().find(text).map(|m| m.map(|m| (m.start(), m.end())))).show();
+        tx.send(re.clone()).unwrap();
+        let got = rrx.recv().unwrap();
+        if got != expect {
+            bad += 1;
+            println!("round {} /{}/: worker got {} expected {}", round, p, got, expect);
+        }
+        drop(re);
+    }
+    drop(tx);
+    let _ = worker.join();
+    println!("lifecycle probe: {} of 40 rounds wrong on the worker; Arc<Regex> address recurred {} times", bad, same_addr);
+    0
 }
 
 /// Debugging aid: run one pattern on one text and print what the library returns.
